@@ -1,9 +1,11 @@
 package main
 
 import (
+	"fmt"
 	"go/ast"
 	"go/token"
 	"go/types"
+	"io"
 
 	"golang.org/x/tools/go/cfg"
 	"golang.org/x/tools/go/types/typeutil"
@@ -114,6 +116,10 @@ func NewFG(f *FuncInfo) *FG {
 		switch len(b.Succs) {
 		case 0:
 			// return, panic, or end of function. A no-return call does not reach EXIT.
+			if b.Kind == cfg.KindSelectAfterCase && len(b.Nodes) == 0 {
+				// after the last case of a select without default: the select blocks until a case is ready, it never falls out here
+				continue
+			}
 			if n := from.N; n != nil {
 				if es, ok := n.(*ast.ExprStmt); ok {
 					if call, ok := es.X.(*ast.CallExpr); ok && noReturnCall(info, call) {
@@ -166,12 +172,16 @@ func (g *FG) NodeOf(n ast.Node) *GNode {
 	if x, ok := g.byAST[n]; ok {
 		return x
 	}
+	// the innermost vertex: statement heads (select, switch, range) span their bodies
+	var best *GNode
 	for _, x := range g.Nodes {
 		if x.N != nil && x.N.Pos() <= n.Pos() && n.End() <= x.N.End() && containsNoLit(x.N, n) {
-			return x
+			if best == nil || x.N.End()-x.N.Pos() < best.N.End()-best.N.Pos() {
+				best = x
+			}
 		}
 	}
-	return nil
+	return best
 }
 
 // containsNoLit reports whether root contains target without passing through a function literal
@@ -285,7 +295,9 @@ func (g *FG) ReachFromEntry(blockNode func(*GNode) bool, blockEdge func(*GEdge) 
 // pathLines renders a witness path (lines of the real vertices) ending at x.
 func (g *FG) pathLines(parent map[*GNode]*GNode, x *GNode) string {
 	var lines []int
-	for n := x; n != nil; n = parent[n] {
+	visited := map[*GNode]bool{}
+	for n := x; n != nil && !visited[n]; n = parent[n] {
+		visited[n] = true
 		if n.N != nil {
 			lines = append(lines, g.F.M.Fset.Position(n.N.Pos()).Line)
 		}
@@ -463,3 +475,35 @@ func (g *FG) Live() map[*GNode]bool {
 }
 
 var _ = token.NoPos
+
+// Dump prints the graph (debugging aid: VERIF_DUMPFG=<function name>).
+func (g *FG) Dump(w io.Writer) {
+	for _, x := range g.Nodes {
+		desc := "·"
+		if x.N != nil {
+			desc = fmt.Sprintf("%T@%d", x.N, g.F.M.Fset.Position(x.N.Pos()).Line)
+		}
+		if x == g.Entry {
+			desc += " ENTRY"
+		}
+		if x == g.Exit {
+			desc += " EXIT"
+		}
+		kind := ""
+		if x.Blk != nil {
+			kind = x.Blk.Kind.String()
+		}
+		fmt.Fprintf(w, "n%d %s [%s]:", x.ID, desc, kind)
+		for _, e := range x.Succs {
+			c := ""
+			if e.Cond != nil {
+				c = fmt.Sprintf("{%s %+d}", types.ExprString(e.Cond), e.Pol)
+			}
+			if e.Comm != nil {
+				c += "{comm}"
+			}
+			fmt.Fprintf(w, " →n%d%s", e.To.ID, c)
+		}
+		fmt.Fprintln(w)
+	}
+}
